@@ -4,6 +4,7 @@ import (
 	"fmt"
 	"github.com/chain4energy/c4e-chain/x/cfedistributor/types"
 	sdk "github.com/cosmos/cosmos-sdk/types"
+	authtypes "github.com/cosmos/cosmos-sdk/x/auth/types"
 )
 
 // RegisterInvariants register cfedistribution invariants
@@ -39,7 +40,8 @@ func StateSumBalanceCheckInvariant(k Keeper) sdk.Invariant {
 
 		var broken bool
 
-		distributorAccountCoins := k.GetAccountCoinsForModuleAccount(ctx, types.DistributorMainAccount)
+		// an invariant must not write: GetModuleAccount would create the main account when it does not exist yet
+		distributorAccountCoins := k.GetAccountCoins(ctx, authtypes.NewModuleAddress(types.DistributorMainAccount))
 		if remainsSum.IsZero() && distributorAccountCoins.IsZero() {
 			ctx.Logger().Debug("Coin state and distributor account is empty possible start of blockchain")
 			broken = false
